@@ -45,14 +45,14 @@ Definition checkF (c : case_t) : bool := traceF (c_init c) (c_ops c) (c_obs c).
    surviving dimensions keep their unlimited flag across every step (through renameDimensions: under the new name) *)
 Fixpoint obsS (f : file) (ops : list op) (obs : list (res file)) : bool :=
   match ops, obs with
-  | o :: t, Ok g :: rt => wfb g && unlim_kept_op o (fdims f) (fdims g) && obsS g t rt
+  | o :: t, Ok g :: rt => wfb g && keys_nodup (fdims g) && unlim_kept_op o (fdims f) (fdims g) && obsS g t rt
   | _, _ => true
   end.
 (* operand files of stack / arithmetic are files obtained from operations too *)
 Definition operands_wfb (o : op) : bool :=
   match o with OStack others _ => forallb wfb others | OBinop g => wfb g | _ => true end.
 Definition checkS (c : case_t) : bool :=
-  wfb (c_init c) && obsS (c_init c) (c_ops c) (c_obs c) && forallb operands_wfb (c_ops c).
+  wfb (c_init c) && keys_nodup (fdims (c_init c)) && obsS (c_init c) (c_ops c) (c_obs c) && forallb operands_wfb (c_ops c).
 
 (* region: number of the first operation of the (observed) run that leaves the proved domain *)
 Fixpoint obs_region (f : file) (ops : list op) (obs : list (res file)) : nat :=
